@@ -1699,6 +1699,36 @@ func genC18(g *G, sc *Scenario, tier string) {
 		}
 	}
 	first := Op{K: "runFix", S: "job1"}
+	if g.P(0.1) {
+		// the job is scheduled (one pipeline and source object for all its runs). After a while the main dataset is
+		// deleted and created again under its name, loaded again, and the operator has the job start over; changes
+		// in the dependencies must go on reaching the main entities
+		cfg["paused"] = false
+		cfg["triggers"] = []any{map[string]any{"triggerType": "cron", "jobType": "incremental", "schedule": "@every 10m"}}
+		first.N = 1
+		sc.Ops = append(sc.Ops, first)
+		write := func(ds string) {
+			var ents []Ent
+			for k := g.Range(1, 2); k > 0; k-- {
+				ents = append(ents, mk(ds, g.Pick(ids[ds])))
+			}
+			sc.Ops = append(sc.Ops, Op{K: "batch", DS: ds, Ents: ents})
+		}
+		write("dep")
+		sc.Ops = append(sc.Ops, Op{K: "runFix", S: "job1", N: 1})
+		sc.Ops = append(sc.Ops, Op{K: "deleteDataset", DS: "main"}, Op{K: "createDataset", DS: "main"}, Op{K: "resetJob", S: "job1"})
+		var ents []Ent
+		for _, id := range ids["main"] {
+			ents = append(ents, mk("main", id))
+		}
+		sc.Ops = append(sc.Ops, Op{K: "batch", DS: "main", Ents: ents}, Op{K: "runFix", S: "job1", N: 1})
+		for rd := g.Range(1, 2); rd > 0; rd-- {
+			write(g.Pick([]string{"dep", "dep", writable[len(writable)-1]}))
+			sc.Ops = append(sc.Ops, Op{K: "runFix", S: "job1", N: 1})
+		}
+		sc.Note = "main dataset re-created under a scheduled job"
+		return
+	}
 	inflight := func() {
 		// a write to a dependency (or link, or the main dataset) is in flight - stored, not yet committed - while a
 		// run of the job starts and ends
